@@ -144,63 +144,76 @@ func ruleMergeAfterFailedSteal(c *Ctx, r *R) {
 // idx < parent.n (a node with n separators has children 0..n): `<=` reads one past the last child - nil for most parents, out
 // of range for a full one.
 func ruleSiblingBounds(c *Ctx, r *R) {
-	fn := bt(c, "siblings")
-	if fn == nil {
-		r.undecided("tree.btree.siblings|missing", token.NoPos, "anchor not found")
-		return
-	}
+	// wherever a function of the package looks up a node's position among its parent's children (the result of a call) and
+	// reads the child one to the left / right of it (siblings, or leftSibling / rightSibling after a split)
 	n := 0
-	instrs(fn, func(b *ssa.BasicBlock, _ int, in ssa.Instruction) {
-		ia, ok := in.(*ssa.IndexAddr)
-		if !ok {
-			return
-		}
-		nd, arr, ok := nodeArray(ia.X)
-		if !ok || arr != "children" {
-			return
-		}
-		bin, ok := ia.Index.(*ssa.BinOp)
-		if !ok || !isConstInt(bin.Y, 1) || (bin.Op != token.ADD && bin.Op != token.SUB) {
-			return
-		}
-		n++
-		idx := bin.X
-		good := false
-		for _, g := range append(guardsOf(b), guardsOfSelf(b)...) {
-			cf, ok := g.asCmp()
+	for _, fn := range c.funcsOfPkg(treeRel) {
+		name := c.nameOf(fn)
+		instrs(fn, func(b *ssa.BasicBlock, _ int, in ssa.Instruction) {
+			ia, ok := in.(*ssa.IndexAddr)
 			if !ok {
-				continue
+				return
 			}
-			x, y, op := cf.x, cf.y, cf.op
-			if y == idx {
-				x, y, op = y, x, flip(op)
+			nd, arr, ok := nodeArray(ia.X)
+			if !ok || arr != "children" {
+				return
 			}
-			if x != idx {
-				continue
+			bin, ok := ia.Index.(*ssa.BinOp)
+			if !ok || !isConstInt(bin.Y, 1) || (bin.Op != token.ADD && bin.Op != token.SUB) {
+				return
 			}
-			if bin.Op == token.SUB && op == token.GTR && isConstInt(y, 0) {
-				good = true
+			idx := bin.X
+			if _, isCall := resolveVal(idx).(*ssa.Call); !isCall {
+				return // a loop index or a search position: other rules
 			}
-			if bin.Op == token.SUB && op == token.GEQ && isConstInt(y, 1) {
-				good = true
+			// only reads (a sibling is looked at, not a slot being filled)
+			isRead := false
+			for _, ref := range refsOf(ia) {
+				if ld, ok := ref.(*ssa.UnOp); ok && ld.Op == token.MUL {
+					isRead = true
+				}
 			}
-			if bin.Op == token.ADD && op == token.LSS {
-				// y is <same node>.n (converted)
-				if ld, ok := stripConvs(y).(*ssa.UnOp); ok && ld.Op == token.MUL {
-					if fa, ok := ld.X.(*ssa.FieldAddr); ok && fieldName(fa.X.Type(), fa.Field) == "n" && path(fa.X) == path(nd) {
-						good = true
+			if !isRead {
+				return
+			}
+			n++
+			good := false
+			for _, g := range append(guardsOf(b), guardsOfSelf(b)...) {
+				cf, ok := g.asCmp()
+				if !ok {
+					continue
+				}
+				x, y, op := cf.x, cf.y, cf.op
+				if y == idx {
+					x, y, op = y, x, flip(op)
+				}
+				if x != idx {
+					continue
+				}
+				if bin.Op == token.SUB && op == token.GTR && isConstInt(y, 0) {
+					good = true
+				}
+				if bin.Op == token.SUB && op == token.GEQ && isConstInt(y, 1) {
+					good = true
+				}
+				if bin.Op == token.ADD && op == token.LSS {
+					// y is <same node>.n (converted)
+					if ld, ok := stripConvs(y).(*ssa.UnOp); ok && ld.Op == token.MUL {
+						if fa, ok := ld.X.(*ssa.FieldAddr); ok && fieldName(fa.X.Type(), fa.Field) == "n" && path(fa.X) == path(nd) {
+							good = true
+						}
 					}
 				}
 			}
-		}
-		side := "right"
-		if bin.Op == token.SUB {
-			side = "left"
-		}
-		r.ok(good, "tree.btree.siblings|"+side+"-sibling-bound#"+itoa(n), ia.Pos(), "the "+side+" sibling is read at "+path(ia.Index)+" without the strict bound (idx > 0 / idx < parent.n): a parent with n separators has children 0..n, one further is nil - or out of range when the parent is full")
-	})
+			side := "right"
+			if bin.Op == token.SUB {
+				side = "left"
+			}
+			r.ok(good, name+"|"+side+"-sibling-bound#"+itoa(n), ia.Pos(), "the "+side+" sibling is read at "+path(ia.Index)+" without the strict bound (idx > 0 / idx < parent.n): a parent with n separators has children 0..n, one further is nil - or out of range when the parent is full")
+		})
+	}
 	if n < 2 {
-		r.undecided("tree.btree.siblings|reads", fn.Pos(), "expected a read of children[idx-1] and of children[idx+1]")
+		r.undecided("tree|sibling-reads", token.NoPos, "expected a read of children[idx-1] and of children[idx+1] next to a node's own position")
 	}
 }
 
